@@ -69,6 +69,8 @@ func c05BodyAlphabet(p, q string) []string {
 		"if " + p + " == 3 { " + p + " = 2 }", p + " := 4", "x = " + p + "; x", "for " + p + " { 1 }", "-" + p, p + " * 2.5", p + " == " + q, "len(" + p + ")",
 		"g = func(" + p + ") { " + p + " + 1 }; g(1)", "(" + p + " => " + p + " * 2)(5)", "mm = {\"" + p + "\": 7}; mm." + p, "mm = {}; mm[" + p + "] = " + p + "; mm", "aa = [0, 0, 0, 0]; aa[" + p + "] = " + p + "; aa",
 		"gv = " + p, p + " = " + p + " * 2", "gw = [" + p + "]", "(for i = 2 { " + p + " }) + (for j = 2 { j })", "rdg(" + p + ")", "eval(\"" + p + "\")", "[" + p + ", " + p + " + 1][" + p + " - " + p + "]", "sprintf(\"%v\", " + p + ")", "min(" + p + ", 2)", "\"s\" * " + p,
+		// the parameter stored in containers that are read after it changes
+		"mm = {}; mm[" + p + "] = " + p + "; gw = mm", "gw = [" + p + ", {" + p + ": " + p + "}]", "aa = [0, 0, 0, 0]; aa[1] = " + p + "; gw = aa",
 		// the parameter used as if it were a container
 		p + "[0] = 1", p + ".k = 1", p + "[0]", "del(" + p + "[0])", p + "[0:1]", p + "[0]++",
 	}
@@ -152,7 +154,7 @@ func c05FnPrograms(thorough bool, f func(fam, src string) bool) bool {
 	return true
 }
 
-var c05Exits = []string{"none", "break", "continue", "return", "error", "funclit", "assign", "incr", "condbreak", "condcontinue", "condreturn"}
+var c05Exits = []string{"none", "break", "continue", "return", "error", "funclit", "assign", "incr", "condbreak", "condcontinue", "condreturn", "storemap", "storearr", "storelit"}
 
 // c05Loop renders nested counted loops. names[i]=="" means the count-only form `for n {}`.
 func c05Loop(names []string, forms []int, exitLevel int, exit string, exitFirst bool) string {
@@ -198,6 +200,12 @@ func c05Loop(names []string, forms []int, exitLevel int, exit string, exitFirst 
 				return "c++"
 			}
 			return v + "++"
+		case "storemap": // the loop variable stored as key and value of a container that outlives the iteration
+			return "stm[" + cv + "] = " + cv
+		case "storearr":
+			return "sta = sta + [" + cv + "]; sta[0] = " + cv
+		case "storelit":
+			return "stl = [" + cv + ", {" + cv + ": [" + cv + "]}, stl]"
 		case "condbreak":
 			return "if " + cv + " == 1 { break }"
 		case "condcontinue":
@@ -248,11 +256,11 @@ func c05LoopPrograms(thorough bool, f func(fam, src string) bool) bool {
 		for _, v := range vars {
 			after.WriteString(", catch(" + v + ")")
 		}
-		after.WriteString(")")
+		after.WriteString(", stm, sta, stl)")
 		if inFunc {
-			return "c = 0\ng = 10\nfunc w(p) {\n" + loops + after.String() + "\n}\nprintln(w(5))\n" + after.String() + "\nfor k = 2 { println(k) }"
+			return "stm = {}\nsta = [0]\nstl = 0\nc = 0\ng = 10\nfunc w(p) {\n" + loops + after.String() + "\n}\nprintln(w(5))\n" + after.String() + "\nfor k = 2 { println(k) }"
 		}
-		return "c = 0\ng = 10\np = 20\n" + loops + after.String() + "\nfor k = 2 { println(k) }"
+		return "stm = {}\nsta = [0]\nstl = 0\nc = 0\ng = 10\np = 20\n" + loops + after.String() + "\nfor k = 2 { println(k) }"
 	}
 	for d := 1; d <= maxFull; d++ {
 		ok := enumTuples(len(nameChoices), d, func(idx []int) bool {
